@@ -614,7 +614,7 @@ func TestC26(t *testing.T) {
 	})
 
 	c.Rapid("diff", 4800, 80000, func(rt *rapid.T) {
-		s := c11Spec{CartType: rapid.SampledFrom(c26CartTypes).Draw(rt, "type"), RomSize: uint8(rapid.IntRange(0, 2).Draw(rt, "rom")), RamSize: uint8(rapid.IntRange(0, 3).Draw(rt, "ram")), Len: -1}
+		s := c11Spec{CartType: rapid.SampledFrom(c26CartTypes).Draw(rt, "type"), RomSize: uint8(rapid.IntRange(0, 2).Draw(rt, "rom")), RamSize: rapid.SampledFrom([]uint8{0, 0, 0, 1, 2, 3}).Draw(rt, "ram"), Len: -1}
 		s.Program = c11GenProgram(rt)
 		s.Far = true
 		s.Head = make([]byte, 0x68)
